@@ -251,10 +251,10 @@ def crossingIncrement (normal d : V3 α) (ray segmentAB : Segment α) : Nat :=
   if aOn && bOn then 0
   else if aOn then
     let sideNormal := d.cross segmentAB.asVector
-    if sideNormal.isSameDirection normal then 1 else 0
+    if sideNormal.dot normal >. (0 : α) then 1 else 0
   else if bOn then
     let sideNormal := d.cross segmentAB.asReversedVector
-    if sideNormal.isSameDirection normal then 1 else 0
+    if sideNormal.dot normal >. (0 : α) then 1 else 0
   else
     match segmentAB.getIntersectionPt ray with
     | some (tA, tB) => if inUnitClosed tB && inUnitClosed tA then 1 else 0
